@@ -120,6 +120,10 @@ def analyse(cfg):
             if b[0] == "agg" and b[1].endswith("Result::Err"):
                 pay = b[2][0][1]
                 return ("ret", "Err(e)" if _is_err_outcome(pay) else "Err(other:%s)" % fmt(pay)[:80])
+            if b[0] == "call" and b[1].endswith("FromResidual::from_residual") and b[4] and b[4][1] == "agg":
+                # `Err(e)` rebuilt from the error payload of a Result (normalised by the provenance engine)
+                pay = b[2][0]
+                return ("ret", "Err(e)" if _is_err_outcome(pay) else "Err(other:%s)" % fmt(pay)[:80])
             if _is_outcome(b):
                 return ("ret", "outcome-itself")
             return ("ret", "other:" + fmt(b)[:80])
